@@ -23,7 +23,7 @@ Definition funOK (p : nat) (ps : list param) (body : query) (cel : list (BinNums
     (forall G, comp body {| ce_env := param_env idf ps ++ cel; ce_lbls := []; ce_ghost := G |} idf
                  (p + 1 + length (prelude idf ps)) (param_slots ps) s0 = Some (cb, nvb, s1)) /\
     (forall i x, nth_error (prelude idf ps ++ cb ++ [Iret]) i = Some x -> nth_error code (p + 1 + i) = Some x) /\
-    ce_lt {| ce_env := cel; ce_lbls := []; ce_ghost := fun _ => False |} idf = true /\ no_pv ps = true.
+    ce_lt {| ce_env := cel; ce_lbls := []; ce_ghost := fun _ => False |} idf = true.
 
 (* the compile-time environment and the semantic environment are parallel lists; G: the addresses the
    environments of the closures bound here depend on *)
@@ -554,7 +554,7 @@ Proof.
     match type of Hc with context [comp a ce ?c ?p ?n ?s] =>
       destruct (comp a ce c p n s) as [[[ca na] s2]|] eqn:Ea; [|discriminate] end. cbv iota beta in Hc.
     inversion Hc; subst. apply IHb in Eb. apply IHa in Ea. lia.
-  - (* def *) destruct (Nat.ltb cur sn && ce_lt ce sn); [|discriminate]. destruct (no_pv ps); [|discriminate].
+  - (* def *) destruct (Nat.ltb cur sn && ce_lt ce sn); [|discriminate].
     dcomp. inversion Hc; subst. apply IHbody in Ec. apply IHrest in Ec0. lia.
   - (* callf *) destruct (lookup_cf f (length args) (ce_env ce)) as [[y|p n|y]|]; try discriminate.
     + destruct args as [|a0 args']; [inversion Hc; subst; lia|].
@@ -596,7 +596,7 @@ Ltac cg ce ce' :=
 Lemma comp_ghost : forall q ce ce', ce_env ce = ce_env ce' -> ce_lbls ce = ce_lbls ce' ->
   forall cur pc nv sn, comp q ce cur pc nv sn = comp q ce' cur pc nv sn.
 Proof.
-  qind q; intros ce ce' He Hl cur pc nv sn; cbn -[Nat.add Nat.ltb Nat.eqb ce_lt prelude param_env param_slots comp_args no_pv];
+  qind q; intros ce ce' He Hl cur pc nv sn; cbn -[Nat.add Nat.ltb Nat.eqb ce_lt prelude param_env param_slots comp_args];
     try reflexivity; unfold ce_lt; rewrite ?He, ?Hl.
   - cg ce ce'.
   - cg ce ce'.
